@@ -55,7 +55,7 @@ fn body_of(f: &Frame) -> String {
 }
 
 /// A well-behaved pub/sub round trip on `topic` by the real client library.
-async fn pubsub_round_trip(addr: SocketAddr, set: &CertSet, topic: &str) -> Result<(), String> {
+pub async fn pubsub_round_trip(addr: SocketAddr, set: &CertSet, topic: &str) -> Result<(), String> {
     let fut = async {
         let client = net::default_client(addr, set).await.map_err(|e| format!("connect: {e}"))?;
         let mut sub = client.subscriber(topic).with_decoder(StringCodec).open().await.map_err(|e| format!("subscriber open: {e}"))?;
